@@ -712,4 +712,18 @@ example : (runBisync .error exCfg none { exT with ks := fun _ _ => none } [exR])
     [Req.exists [104], Req.multi, Req.marker, Req.restore [104] 4000 [4, 3] [] false, Req.exec] := by decide
 example : snapshotObj exCfg exT exE0 [exE1, exE2] = { val := .native [exCmd 49 49, exCmd 50 50, exCmd 51 51], exp := 5000 } := by decide
 
+-- bidirectional replay against a target that refuses the payload: the unit is sent, the replay fails, the old value stays
+example : (runBisync .replace exCfg none exTBad [exR]).out = .errBad := by decide
+example : (runBisync .replace exCfg none exTBad [exR]).tgt.get [104] = some { val := .old 0, exp := 777 } := by decide
+-- two key groups in one run (the remembered `ignore` decision of the first does not reach the second)
+def exK : Entry := { exR with key := [105], cmds := [{ name := [115, 101, 116], args := [[105], [120]] }] }
+example : (runPlain .ignore exCfg none exT ([exE0, exE1, exE2] ++ [exK])).reqs =
+    [Req.exists [104], Req.restore [105] 4000 [4, 3] [] false] := by decide
+example : (runPlain .ignore exCfg none exT ([exE0, exE1, exE2] ++ [exK])).tgt.get [104] = some { val := .old 0, exp := 777 } := by decide
+example : (runBisync .ignore exCfg none exT ([exE0, exE1, exE2] ++ [exK])).tgt.get [105] = some { val := .restored [4, 3], exp := 5000 } := by decide
+-- replaceHashTag: `{}` is rewritten to the empty key (a valid key), commands follow
+example : (retag true { exR with key := [123, 125], cmds := [{ name := [115, 101, 116], args := [[123, 125], [120]] }] }).key = [] := by decide
+example : (retag true { exR with key := [123, 125], cmds := [{ name := [115, 101, 116], args := [[123, 125], [120]] }] }).cmds =
+    [{ name := [115, 101, 116], args := [[], [120]] }] := by decide
+
 end GunYu.Props.C20
